@@ -185,6 +185,8 @@ pub enum PFn {
     IsVar,
     /// out == in + 1
     Succ,
+    /// out == h * h where `in` is (syntactically) a list cell whose head is the number h
+    HeadSquare,
 }
 
 #[derive(Clone, Debug, PartialEq, Eq, Hash, Serialize, Deserialize)]
